@@ -12,6 +12,42 @@ BOUNDS = {
 ASSUMPTIONS = ["NN-controlled conditional: control_func(u) = u P + q with symbolic u, P"]
 
 
+
+def sliced_marginal_case(kind, Dx, Dy, idx, Rc=3, semi=(), timeout=600):
+    """marginal transformation of a SLICED batch of conditionals (negative / repeated indices): the result must be the push-forward
+    through the addressed components"""
+    import numpy as np
+    from ..case import Case
+    from .. import spec
+    from .common import make_cond, cond_spec_params, fields, gt
+    from .condprops import cond_decl, prior_decl, make_prior
+    cid = f"C08/marginal-of-slice/{kind}/Dx{Dx}Dy{Dy}/Rc{Rc}/idx{'_'.join(str(i).replace('-', 'm') for i in idx)}" + ("/semi-" + "-".join(semi) if semi else "")
+    cfg = dict(what="marginal transformation after slice(idx)", conditional=kind, Dx=Dx, Dy=Dy, R_cond=Rc, idx=list(idx), concrete_blocks=list(semi))
+
+    def declare(b):
+        cond_decl(b, kind, Rc, Dy, Dx, semi); prior_decl(b, 1, Dx, semi); b.free("y", (1, Dy))
+
+    def fn(**A):
+        import jax.numpy as jnp
+        c = make_cond(kind, "c_", A, Dy, Dx)
+        cs = c.obj.slice(jnp.array(list(idx)))
+        m = cs.affine_marginal_transformation(make_prior(A))
+        return {"eval": m.evaluate_ln(A["y"]), "mu": m.mu, "Sigma": m.Sigma}
+
+    def claims(I, O, ops):
+        M, bb, S = cond_spec_params(ops, kind, "c_", I, Rc, Dy, Dx)
+        n = len(idx)
+        emu = ops.zeros((n, Dy)); eS = ops.zeros((n, Dy, Dy)); ev = ops.zeros((n, 1))
+        for k, i in enumerate(idx):
+            r = i % Rc
+            emu[k] = spec.mv(M[r], I["mx"][0]) + bb[r]
+            eS[k] = S[r] + spec.mm(spec.mm(M[r], I["Sx"][0]), M[r].T)
+            ev[k, 0] = spec.logN(ops, I["y"][0], emu[k], eS[k])
+        return [("marginal of slice(idx): mean", O["mu"], emu), ("marginal of slice(idx): covariance", O["Sigma"], eS), ("marginal of slice(idx): log-density", O["eval"], ev)]
+
+    return Case(cid, PROP, cfg, declare, fn, claims, timeout=timeout)
+
+
 def cases(tier, seed=0):
     out = []
     batches = [(1, 1), (1, 2), (2, 1)]
@@ -45,6 +81,10 @@ def cases(tier, seed=0):
                         continue
                     for semi in rotations(kind, 1):
                         out.append(make_case(PROP, "marginal", kind, 2, 2, Rc, Rx, semi=semi, timeout=1800, extra="t"))
+    for kind in ("full", "diag", "identity", "identitydiag"):
+        d = (1, 1) if kind.startswith("identity") else (1, 2)
+        out.append(sliced_marginal_case(kind, d[0], d[1], [-1, 0]))
+        out.append(sliced_marginal_case(kind, d[0], d[1], [1, 1, -3]))
     # constructor / history variants: built from the precision only; update_Sigma before the operation
     for kind in KINDS:
         dd = (2, 2) if kind.startswith("identity") else (2, 1)
